@@ -9,11 +9,11 @@ import (
 
 // One operation of a sequential history (JSON shape = what lean/Mcp/Drv/Registry.lean parses).
 type sop struct {
-	T  string   `json:"t"`            // reg | unreg | list | call | get | gets
-	K  string   `json:"k,omitempty"`  // tool | prompt | resource | template | notif
-	N  *string  `json:"n,omitempty"`  // name / uri / method
-	V  *int     `json:"v,omitempty"`  // version (reg)
-	Ns []string `json:"ns"`           // names (unreg)
+	T  string   `json:"t"`           // reg | unreg | list | call | get | gets
+	K  string   `json:"k,omitempty"` // tool | prompt | resource | template | notif
+	N  *string  `json:"n,omitempty"` // name / uri / method
+	V  *int     `json:"v,omitempty"` // version (reg)
+	Ns []string `json:"ns"`          // names (unreg)
 }
 
 func sp(s string) *string { return &s }
